@@ -4,7 +4,7 @@
    symbols and opaque (non-polynomial) subterms.  Definitions only
    (soundness: CompareFacts.v). *)
 From Coq Require Import List String QArith ZArith Bool Qreduction.
-From Bq Require Import Expr Routine.
+From Bq Require Import Expr StdSem Routine.
 Import ListNotations.
 Open Scope string_scope.
 
@@ -89,6 +89,34 @@ Definition poly_is_const (p : poly) : option Q :=
   | _ => None
   end.
 
+(* a closed arithmetic term (no symbol, no function call, no sum or product sign) whose value the symbolic backend works
+   out on the spot: ceiling(7/2) IS 4 by the time two sizes are compared.  Division by zero, a negative power of zero and
+   out-of-range exponents are left alone *)
+Definition foldable (o : op) (vs : list Q) : bool :=
+  match o, vs with
+  | OFloor, [_] | OCeil, [_] | ONeg, [_] => true
+  | OAdd, _ | OMul, _ => true
+  | OSub, [_; _] => true
+  | OMax, _ :: _ | OMin, _ :: _ => true
+  | ODiv, [_; b] | OFloorDiv, [_; b] | OMod, [_; b] => negb (Qzero b)
+  | OPow, [a; b] => is_int b && Z.leb (Z.abs (to_int b)) 64 && negb (Qzero a && Z.ltb (to_int b) 0)
+  | _, _ => false
+  end.
+
+Fixpoint cfold (e : expr) : option Q :=
+  match e with
+  | ENum q => Some q
+  | EOp o args =>
+      match all_some (map cfold args) with
+      | Some vs => if foldable o vs then Some (stdI o vs) else None
+      | None => None
+      end
+  | _ => None
+  end.
+
+Definition atom_or_const (e : expr) : poly :=
+  match cfold e with Some q => poly_const (Qred q) | None => poly_atom e end.
+
 Fixpoint normalize (e : expr) : poly :=
   match e with
   | ENum q => poly_const (Qred q)
@@ -99,19 +127,19 @@ Fixpoint normalize (e : expr) : poly :=
   | EOp ONeg [a] => poly_scale (-1) (normalize a)
   | EOp ODiv [a; b] =>
       match poly_is_const (normalize b) with
-      | Some c => if Z.eqb (Qnum c) 0 then poly_atom e else poly_scale (/ c) (normalize a)
-      | None => poly_atom e
+      | Some c => if Z.eqb (Qnum c) 0 then atom_or_const e else poly_scale (/ c) (normalize a)
+      | None => atom_or_const e
       end
   | EOp OPow [a; b] =>
       match poly_is_const (normalize b) with
       | Some c =>
           match q_int c with
-          | Some z => if Z.leb 0 z && Z.leb z 12 then poly_pow (normalize a) (Z.to_nat z) else poly_atom e
-          | None => poly_atom e
+          | Some z => if Z.leb 0 z && Z.leb z 12 then poly_pow (normalize a) (Z.to_nat z) else atom_or_const e
+          | None => atom_or_const e
           end
-      | None => poly_atom e
+      | None => atom_or_const e
       end
-  | _ => poly_atom e
+  | _ => atom_or_const e
   end.
 
 Definition difference (l r : expr) : poly := poly_clean (poly_add (normalize l) (poly_scale (-1) (normalize r))).
